@@ -78,7 +78,7 @@ class Session(object):
 
         # try to get the current logged in user
         user = self.get("users/current")
-        user = user.get("items", [{}])[0]
+        user = (user.get("items") or [{}])[0]
         if not user or user.get("authenticated") is False:
             logger.error("Wrong username/password")
             return False
@@ -99,7 +99,7 @@ class Session(object):
             logger.error(e)
             return {}
 
-        return response.json()
+        return self.to_json(response)
 
     def get(self, endpoint, timeout=60):
         """Fetch the given url or endpoint and return a parsed JSON object
@@ -119,7 +119,20 @@ class Session(object):
             logger.error(message)
             return {}
 
-        return response.json()
+        return self.to_json(response)
+
+    def to_json(self, response):
+        """Return the JSON object of the response or an empty dict
+        """
+        try:
+            data = response.json()
+        except ValueError as e:
+            logger.error("Response is not JSON")
+            logger.error(e)
+            return {}
+        if not isinstance(data, dict):
+            return {}
+        return data
 
     def get_url(self, endpoint):
         """Create an API URL from an endpoint or absolute url
